@@ -51,6 +51,15 @@ def rdI32 (file : Octets) (off : Nat) : Int :=
   let u := rdU32 file off
   if u < 2147483648 then (u : Int) else (u : Int) - 4294967296
 
+/-- read a uint64 LE at byte offset `off` -/
+def rdU64 (file : Octets) (off : Nat) : Nat :=
+  rdU32 file off + 4294967296 * rdU32 file (off + 4)
+
+/-- read an int64 LE (two's complement) at byte offset `off` -/
+def rdI64 (file : Octets) (off : Nat) : Int :=
+  let u := rdU64 file off
+  if u < 9223372036854775808 then (u : Int) else (u : Int) - 18446744073709551616
+
 /-! ### the documented hashing rule -/
 
 def offsetBasis (i : Nat) : Nat := (14695981039346656037 + 31 * i) % 2 ^ 64
@@ -140,6 +149,33 @@ def refReaderCmsMin (width depth : Nat) (file : Octets) (key : Octets) : Option 
   match (List.range depth).map (cmsCellOf width file key) with
   | [] => none
   | x :: xs => some (xs.foldl min x)
+
+/-- the selected counters, one per row, in ascending order (as the library and the C code sort them) -/
+def cmsSorted (width depth : Nat) (file : Octets) (key : Octets) : List Int :=
+  ((List.range depth).map (cmsCellOf width file key)).mergeSort fun a b => decide (a ≤ b)
+
+/-- reference reader, mean query: floor of the mean of the selected counters (`none` for depth 0) -/
+def refReaderCmsMean (width depth : Nat) (file : Octets) (key : Octets) : Option Int :=
+  if depth = 0 then none
+  else some (((List.range depth).map (cmsCellOf width file key)).sum / (depth : Int))
+
+/-- reference reader, mean-min query.  `elements_added` is read from the footer (bytes 8..15 after
+    the `width*depth` counters).  Every selected counter `t` is corrected by the expected noise
+    `(elements_added - t) div (width - 1)`; the answer is the median of the corrected values
+    (mean of the two middle values, floored, for an even depth); 0 when all selected counters are 0.
+    `none`: depth 0, or width 1 (division by zero) -/
+def refReaderCmsMeanMin (width depth : Nat) (file : Octets) (key : Octets) : Option Int :=
+  let sorted := cmsSorted width depth file key
+  let added := rdI64 file (4 * (width * depth) + 8)
+  match sorted.head?, sorted.getLast? with
+  | some lo, some hi =>
+      if lo = 0 ∧ hi = 0 then some 0
+      else if width = 1 then none
+      else
+        let mm := (sorted.map fun t => t - (added - t) / ((width : Int) - 1)).mergeSort fun a b => decide (a ≤ b)
+        if depth % 2 = 0 then some ((mm.getD (depth / 2) 0 + mm.getD (depth / 2 - 1) 0) / 2)
+        else some (mm.getD (depth / 2) 0)
+  | _, _ => none
 
 /-- `arr[p] = min(arr[p] + 1, INT32_MAX)` -/
 def incrSatI : List Int → Nat → List Int
